@@ -417,8 +417,9 @@ def _compile_item(B: Builder, o, av, k, ACC: set, at_start: bool, flags: int):
     import re
 
     A = B.alpha
-    if flags & (re.IGNORECASE | re.MULTILINE | re.VERBOSE | re.LOCALE):
-        raise Unsupported("regex flags IGNORECASE/MULTILINE/VERBOSE are not modelled")
+    # re.VERBOSE is resolved by the parser (blanks and comments are gone from the parse tree)
+    if flags & (re.IGNORECASE | re.MULTILINE | re.LOCALE):
+        raise Unsupported("regex flags IGNORECASE/MULTILINE/LOCALE are not modelled")
     ascii_only = bool(flags & re.ASCII)
     dotall = bool(flags & re.DOTALL)
     if o == C.LITERAL:
